@@ -6,11 +6,13 @@ From Coq Require Import List Bool NArith ZArith.
 From MV Require Import Base.Bytes Model.OptManager.
 Import ListNotations.
 
-(* concrete listener behaviours: a listener rejects (raises OptionsError) iff one of its rules fires *)
+(* concrete listener behaviours: a listener rejects (raises OptionsError) iff one of its Rej rules fires;
+   otherwise the first NestIf rule that fires makes it call self.update(kw) (exceptions propagate); else it returns *)
 Inductive rule :=
 | RejValue (n : name) (v : val)    (* option n exists and its current value == v *)
 | RejUpdated (n : name)            (* n is in the updated set *)
-| RejCall (k : N).                 (* this is the k-th call of this listener (from 0) *)
+| RejCall (k : N)                  (* this is the k-th call of this listener (from 0) *)
+| NestIf (x : name) (v : val) (kw : list (name * val)).  (* x is in the updated set and its current value == v *)
 
 Fixpoint count_calls (l : N) (lg : list event) : N :=
   match lg with
@@ -24,13 +26,25 @@ Definition fires (l : N) (s : state) (updated : list name) (r : rule) : bool :=
   | RejValue n v => match dget n (options s) with Some o => py_eq (current o) v | None => false end
   | RejUpdated n => nmem n updated
   | RejCall k => N.eqb (count_calls l (log s)) k
+  | NestIf _ _ _ => false
   end.
 
-Definition interp (specs : list (N * list rule)) (l : N) (s : state) (updated : list name) : bool :=
-  match dget l specs with
-  | Some rules => negb (existsb (fires l s updated) rules)
-  | None => true
+Fixpoint first_nest (s : state) (updated : list name) (rules : list rule) : reaction :=
+  match rules with
+  | [] => Accept
+  | NestIf x v kw :: t =>
+      if nmem x updated && match dget x (options s) with Some o => py_eq (current o) v | None => false end
+      then Nested kw else first_nest s updated t
+  | _ :: t => first_nest s updated t
   end.
+
+Definition interp (specs : list (N * list rule)) (l : N) (s : state) (updated : list name) : reaction :=
+  match dget l specs with
+  | Some rules => if existsb (fires l s updated) rules then Reject else first_nest s updated rules
+  | None => Accept
+  end.
+
+Definition FUEL : nat := 20.   (* nesting depth bound of the replay; generated listeners nest at most 6 deep *)
 
 Inductive obs :=
 | Obs (r : result) (opts : list (name * (bool * val))) (defd : list (name * dval)) (evs : list event).
@@ -51,7 +65,7 @@ Definition val_eqb (a b : val) : bool :=
 Definition err_eqb (a b : err) : bool :=
   match a, b with
   | ETypeError, ETypeError | EOptionsError, EOptionsError | EKeyError, EKeyError
-  | ENotImplemented, ENotImplemented => true
+  | ENotImplemented, ENotImplemented | EFuel, EFuel => true
   | _, _ => false
   end.
 Definition nv_eqb := pair_eqb N.eqb val_eqb.
@@ -65,7 +79,8 @@ Definition result_eqb (a b : result) : bool :=
 Definition event_eqb (a b : event) : bool :=
   match a, b with
   | Notified l1 s1 u1 k1, Notified l2 s2 u2 k2 =>
-      N.eqb l1 l2 && list_eqb nv_eqb s1 s2 && list_eqb N.eqb u1 u2 && Bool.eqb k1 k2
+      N.eqb l1 l2 && list_eqb nv_eqb s1 s2 && list_eqb N.eqb u1 u2
+      && match k1, k2 with KAccept, KAccept | KReject, KReject | KNested, KNested => true | _, _ => false end
   | Errored, Errored => true
   | _, _ => false
   end.
@@ -89,12 +104,12 @@ Definition obs_ok (before after : state) (r : result) (o : obs) : bool :=
            (rev (firstn (length (log after) - length (log before)) (log after))) evs
   end.
 
-Fixpoint replay (behave : N -> state -> list name -> bool) (vt vu : bool)
+Fixpoint replay (behave : N -> state -> list name -> reaction) (vt vu : bool)
                 (steps : list (op * obs)) (s : state) : bool :=
   match steps with
   | [] => true
   | (c, o) :: t =>
-      let (s', r) := step behave vt vu c s in
+      let (s', r) := tstep behave vt vu FUEL c s in
       obs_ok s s' r o && replay behave vt vu t s'
   end.
 
